@@ -13,6 +13,21 @@ _SKIP_ATTRS = {"log", "_threads", "timeout"}
 EXPAND_MODULE_PREFIXES = ("strax", "vlib.checks", "vlib.graphs", "__main__")
 
 
+_INSTR_STARTS = {}
+
+
+def norm_lasti(code, lasti):
+    """f_lasti may point into the inline-cache entries of a (specialised) instruction, depending
+    on how warm the code object is; map it to the start of the instruction it belongs to."""
+    import bisect, dis
+
+    st = _INSTR_STARTS.get(code)
+    if st is None:
+        st = _INSTR_STARTS[code] = sorted(i.offset for i in dis.get_instructions(code))
+    k = bisect.bisect_right(st, lasti) - 1
+    return st[k] if k >= 0 else lasti
+
+
 class Canon:
     def __init__(self, extra_expand=(), skip_attrs=()):
         self.memo = {}
@@ -47,9 +62,9 @@ class Canon:
                 return ("gen", o.gi_code.co_name, "done")
             if o.gi_running:
                 return ("gen", o.gi_code.co_name, "running")
-            return ("gen", o.gi_code.co_name, f.f_lasti, self.locals(f, depth + 1), c(o.gi_yieldfrom, depth + 1))
+            return ("gen", o.gi_code.co_name, norm_lasti(f.f_code, f.f_lasti), self.locals(f, depth + 1), c(o.gi_yieldfrom, depth + 1))
         if isinstance(o, types.FrameType):
-            return ("frame", o.f_code.co_name, o.f_lasti, self.locals(o, depth + 1))
+            return ("frame", o.f_code.co_name, norm_lasti(o.f_code, o.f_lasti), self.locals(o, depth + 1))
         if isinstance(o, vsched.VT):
             return ("vt", o.idx, o.started, o.done)
         if isinstance(o, vsched.RLock):
@@ -74,7 +89,7 @@ class Canon:
         if isinstance(o, np.dtype):
             return ("dtype", str(o))
         if isinstance(o, BaseException):
-            return ("exc", type(o).__name__, repr(o.args)[:120])
+            return ("exc", type(o).__name__, c(o.args, depth + 1))
         if isinstance(o, types.CellType):
             try:
                 return ("cell", c(o.cell_contents, depth + 1))
